@@ -302,6 +302,11 @@ func (n *NodeGroup) DeleteNodes(nodes ...*v1.Node) error {
 		if err != nil {
 			return fmt.Errorf("failed to terminate instance. err: %v", err)
 		}
+		// the termination lowered the desired capacity of the ASG: keep the cached value in step,
+		// so that a resize later in the same scan starts from the current desired capacity
+		if n.asg.DesiredCapacity != nil {
+			*n.asg.DesiredCapacity--
+		}
 		log.Debug(*result.Activity.Description)
 	}
 
